@@ -3,9 +3,11 @@
      rd_acyclic d          : every chain of fragment spreads, from any selection set of the document, ends within
                              (number of fragments + 1) steps — by the pigeonhole principle this is "the fragments
                              reachable in the document do not form a cycle" (valid documents: NoFragmentCycles)
-     rd_alias_consistent d : a response key names the same field everywhere in the document (stronger than what
-                             validation's FieldsInSetCanMerge demands: that rule only looks at fields that can meet
-                             in one grouped field set)
+     rd_mergeable s d      : (a proposition) in every grouped field set that execution can form — for any object
+                             type of the schema, at any depth — the fields of one response key have one field name:
+                             the "same field name" half of validation's FieldsInSetCanMerge
+     rd_alias_consistent d : a decidable sufficient condition for rd_mergeable: a response key names the same field
+                             everywhere in the document
      sch_exec_wf s         : type names are unique in the schema's type map (it is an IndexMap), and no object or
                              interface type declares a field with the name of a meta-field
                              (__typename / __schema / __type; names starting with "__" are reserved), and the
@@ -54,6 +56,33 @@ Definition rd_alias_consistent (d : rdoc) : bool :=
   let fields := filter rs_is_field (rd_nodes d) in
   forallb (fun g1 => forallb (fun g2 => negb (streq (rs_key g1) (rs_key g2)) || streq (rs_name g1) (rs_name g2)) fields)
           fields.
+
+(* ---------------------------------------------------------------- fields that can merge *)
+(* the fields collect_fields can collect from a selection list for an object of type otn (directives ignored) *)
+Inductive ex_creach (s : schema) (frags : list rfrag) (otn : str) (oimpls : list str) : list rsel -> rsel -> Prop :=
+| cr_field l g : In g l -> rs_is_field g = true -> ex_creach s frags otn oimpls l g
+| cr_inline l cond dirs sub g :
+    In (RsInline cond dirs sub) l ->
+    match cond with Some c => ex_type_applies s otn oimpls c | None => true end = true ->
+    ex_creach s frags otn oimpls sub g -> ex_creach s frags otn oimpls l g
+| cr_spread l name dirs fr g :
+    In (RsSpread name dirs) l -> ex_find_frag name frags = Some fr ->
+    ex_type_applies s otn oimpls (rfr_cond fr) = true ->
+    ex_creach s frags otn oimpls (rfr_sels fr) g -> ex_creach s frags otn oimpls l g.
+
+(* one field name per response key, in the selection list and in every merged sub-selection list below it *)
+Inductive ex_mergeable (s : schema) (frags : list rfrag) : list rsel -> Prop :=
+| mg_intro l :
+    (forall otn oimpls g1 g2, ex_get_object s otn = Some oimpls ->
+       ex_creach s frags otn oimpls l g1 -> ex_creach s frags otn oimpls l g2 ->
+       rs_key g1 = rs_key g2 -> rs_name g1 = rs_name g2) ->
+    (forall otn oimpls G, ex_get_object s otn = Some oimpls -> G <> [] ->
+       Forall (ex_creach s frags otn oimpls l) G ->
+       (forall g1 g2, In g1 G -> In g2 G -> rs_key g1 = rs_key g2) ->
+       ex_mergeable s frags (flat_map rs_sels G)) ->
+    ex_mergeable s frags l.
+
+Definition rd_mergeable (s : schema) (d : rdoc) : Prop := ex_mergeable s (rd_frags d) (rd_sels d).
 
 (* ---------------------------------------------------------------- the schema *)
 Definition td_is_meta_name (n : str) : bool := streq n td_typename || streq n td_schema || streq n td_type.
